@@ -663,6 +663,8 @@ def c17(ctx):
         else:
             N.r_convex(ctx, db, e, scen, N.mean_fields(scen), weighted=kw.get("weighted", False))
             N.r_shift(ctx, db, e, scen, N.mean_fields(scen))
+        if t.endswith("WeightedMeanWithError"):
+            N.r_effective_len(ctx, db, e, scen)
     for t, N_ in moment_types(ctx, db):
         e = Est(db, t)
         n += 1
